@@ -194,6 +194,28 @@ class Models:
             return None
         if name == 'back_inserter':
             return Rec('back_inserter', {'dst': e.ev(args[0], st, fr)})
+        if name == 'inserter':
+            e.rv(args[1], st, fr)
+            return Rec('inserter', {'dst': e.ev(args[0], st, fr)})
+        if name == 'set_intersection' and len(args) == 5:
+            # std::set_intersection(a.begin(), a.end(), b.begin(), b.end(), inserter(set)) on two vectors of scalars: the set receives the
+            # values common to both ranges; its size is an uninterpreted function of the two ranges (recorded for the contracts)
+            a0 = A(0); a1 = A(1); b0 = A(2); b1 = A(3); out = A(4)
+            if not (isinstance(a0, Iter) and isinstance(b0, Iter) and isinstance(out, Rec) and out.t == 'inserter' and self.is_scalar_set(out.f['dst'])):
+                raise Unsupported('std::set_intersection form at %s' % e.where(n, fr))
+            dst = out.f['dst']
+            da = z3.Select(e.harr(st, e.vec_data_key(a0.cty.args[0]), None), a0.vref); db = z3.Select(e.harr(st, e.vec_data_key(b0.cty.args[0]), None), b0.vref)
+            card = e.uf('common_values', da.sort(), I, I, db.sort(), I, I, I)(da, a0.idx, a1.idx, db, b0.idx, b1.idx)
+            st.pc.append(card >= 0)
+            arr = e.harr(st, 'sset.member', z3.ArraySort(I, z3.ArraySort(I, B)))
+            st.heap['sset.member'] = z3.Store(arr, dst.ref, e.fresh('sset.member!isect', z3.ArraySort(I, B)))
+            sz = e.hread(st, 'set.size', dst.ref, I)
+            e.hwrite(st, 'set.size', dst.ref, sz + card)
+            st.ghost['isect_count'] = st.ghost.get('isect_count', 0) + 1
+            st.ghost['isect_a'] = a0.vref; st.ghost['isect_b'] = b0.vref; st.ghost['isect_card'] = card
+            st.ghost['isect_whole'] = z3.And(a0.idx == 0, a1.idx == e.vec_len(st, a0.vref), b0.idx == 0, b1.idx == e.vec_len(st, b0.vref), sz == 0)
+            self.used('std::set_intersection into std::inserter(set): the set grows by the number of common values (uninterpreted); ranges are assumed sorted')
+            return out
         if name in ('make_pair',):
             return Rec('pair', {'first': A(0), 'second': A(1)})
         if name in ('printf', 'puts', 'fflush'):
@@ -948,6 +970,7 @@ class Models:
 
     def m_set_begin(self, st, obj, bt, args, n, fr):
         e = self.e
+        if self.is_scalar_set(obj): return Opaque('set<scalar>::iterator')
         if not self.is_edge_set(obj): raise Unsupported('set::begin on %r' % (obj,))
         sz = self.m_set_size(st, obj, bt, [], n, fr)
         k = e.fresh('set.first', I)
@@ -962,6 +985,21 @@ class Models:
         ev = e.vec_read(st, obj.ref, k, obj.ty.args[0])
         f = e.uf('ekey', I, I, I); g1 = e.uf('ekey_1', I, I); g2 = e.uf('ekey_2', I, I)
         st.pc.append(z3.Implies(self.eset_member(st, obj.ref, k), z3.And(k == f(ev.f['n1_id_'], ev.f['n2_id_']), g1(k) == ev.f['n1_id_'], g2(k) == ev.f['n2_id_'])))
+
+    def m_set_rbegin(self, st, obj, bt, args, n, fr):
+        """std::set<scalar>::rbegin(): designates the largest member (when the set is not empty)"""
+        e = self.e
+        if not (self.is_scalar_set(obj) and obj.ty.kind == 'set'): raise Unsupported('set::rbegin on %r at %s' % (obj, e.where(n, fr)))
+        m = e.fresh('set.max', I)
+        mem = self.sset_member(st, obj.ref)
+        sz = self.m_set_size(st, obj, bt, [], n, fr)
+        st.pc.append(z3.Implies(sz > 0, z3.Select(mem, m)))
+        st.pc.append(QForall(lambda x: z3.Implies(z3.Select(mem, x), x <= m), 1, 'rbegin designates the largest member', [m]))
+        ety = obj.ty.args[0]
+        if ety.kind == 'int':
+            lo, hi = TY.INT_RANGES[ety.name]; st.pc.append(z3.And(m >= lo, m <= hi))
+        return Rec('ssetiter', {'value': m, 'end': sz <= 0})
+    m_set_crbegin = m_set_rbegin
 
     def m_set_empty(self, st, obj, bt, args, n, fr):
         return self.m_set_size(st, obj, bt, [], n, fr) == 0
@@ -1121,6 +1159,9 @@ class Models:
             p = e.rv(args[0], st, fr)
             if isinstance(p, Rec) and p.t == 'setiter':
                 return p if name == 'operator->' else self.setiter_deref(st, p, n, fr)
+            if isinstance(p, Rec) and p.t == 'ssetiter':
+                if e.safety_on('bounds'): e.oblige(st, 'safety:dereferenced-set-iterator-is-not-end', z3.Not(p.f['end']), where=e.where(n, fr))
+                return p.f['value']
             if name == 'operator->' and isinstance(p, Ptr):
                 if p.cls is None and a0t.kind == 'ptr' and a0t.args: p = Ptr(p.ref, e.ptr_cls(a0t))
                 return p
@@ -1284,6 +1325,22 @@ class Models:
         e.hwrite(st, 'vec.len', obj.ref, ln + 1)
         self.bump_epoch(st, obj.ref)
 
+    def m_vector_emplace_back(self, st, obj, bt, args, n, fr):
+        e = self.e
+        ety = obj.ty.args[0]
+        if len(args) == 1:
+            return self.m_vector_push_back(st, obj, bt, args, n, fr)
+        if ety.kind == 'pair' and len(args) == 2 and e.is_value_type(ety):
+            a = e.rv(args[0], st, fr); b = e.rv(args[1], st, fr)
+            if isinstance(a, LVS) and not isinstance(a, ObjLV): a = e.load(st, a)
+            if isinstance(b, LVS) and not isinstance(b, ObjLV): b = e.load(st, b)
+            ln = e.vec_len(st, obj.ref)
+            e.vec_write(st, obj.ref, ln, ety, Rec('pair', {'first': a, 'second': b}))
+            e.hwrite(st, 'vec.len', obj.ref, ln + 1)
+            self.bump_epoch(st, obj.ref)
+            return None
+        raise Unsupported('vector::emplace_back form at %s' % e.where(n, fr))
+
     def m_vector_pop_back(self, st, obj, bt, args, n, fr):
         e = self.e
         ln = e.vec_len(st, obj.ref)
@@ -1437,6 +1494,14 @@ class Models:
                 if it >= len(items): return False
                 if vt.ref and isinstance(cont, LVS): s.env[var['id']] = e.member_lv(s, cont, str(it), None)
                 else: s.env[var['id']] = items[it]
+                if var.get('kind') == 'DecompositionDecl':
+                    # for(auto& [a, b]: array_of_pairs): the bindings name the members of the current element
+                    binds = [c for c in var.get('inner', []) if c.get('kind') == 'BindingDecl']
+                    base = s.env[var['id']] if isinstance(s.env[var['id']], LVS) else LocalLV(var['id'])
+                    names = e.decomp_names(s, base, TY.of_node(var), len(binds))
+                    for i_, b_ in enumerate(binds):
+                        e.var_names[b_['id']] = b_.get('name')
+                        s.env[b_['id']] = e.member_lv(s, base, names[i_], None)
                 return True
             return e.run_loop(n, st, fr, None, None, body, bind=bind, use_contract=False)      # fixed-size array: unrolled
         if isinstance(val, ObjLV) and val.ty.kind == 'vector':
